@@ -127,8 +127,61 @@ template <class G> struct C17 {
     if (N == 7 && d == 3 && k == 2 && closed && kind == 0) R.sample("{" + vf::kv("cell", vf::q(key)) + "," + vf::kv("result", vf::q(out)) + "}");
   }
 
+  // every valid configuration of the box again, but all in ONE process and in an order in which N, degree and k decrease as well as
+  // increase: the fresh-process cells above cannot see a result that depends on an earlier call (seed C17c: a static scratch
+  // buffer sized by the largest degree seen so far).  The same independent models judge every call.
+  void history(int NMAX, int KMAX, bool closed, int kind) {
+    std::string key = std::string("history(all configurations in one process, descending then ascending),closed=") + (closed ? "1" : "0") + ",traj=" + std::to_string(kind);
+    if (!R.want(key)) return;
+    ++R.states;
+    int fd[2];
+    if (pipe(fd) != 0) return;
+    pid_t pid = fork();
+    if (pid == 0) {
+      close(fd[0]);
+      struct rlimit rl; rl.rlim_cur = 120; rl.rlim_max = 125; setrlimit(RLIMIT_CPU, &rl);
+      alarm(300);
+      int devnull = open("/dev/null", 1); if (devnull >= 0) { dup2(devnull, 2); }
+      std::string res = "OK";
+      long n = 0;
+      for (int pass = 0; pass < 2 && res == "OK"; ++pass)
+        for (int a = 0; a <= NMAX - 3 && res == "OK"; ++a) {
+          const int N = pass == 0 ? NMAX - a : 3 + a;
+          for (int b = 0; b <= N - 2 && res == "OK"; ++b) {
+            const int d = pass == 0 ? N - b : 2 + b;
+            for (int k = KMAX; k >= 1; --k) {
+              std::string r = child_body(N, d, k, closed, kind);
+              ++n;
+              if (r.compare(0, 2, "OK") != 0) { res = r + " [in-process history, at N=" + std::to_string(N) + ",d=" + std::to_string(d) + ",k=" + std::to_string(k) + ", call #" + std::to_string(n) + "]"; break; }
+            }
+          }
+        }
+      if (res == "OK") res = "OK " + std::to_string(n);
+      ssize_t w = write(fd[1], res.data(), res.size()); (void)w;
+      close(fd[1]);
+      _exit(0);
+    }
+    close(fd[1]);
+    std::string out; char buf[1024]; ssize_t n;
+    while ((n = read(fd[0], buf, sizeof buf)) > 0) out.append(buf, (size_t)n);
+    close(fd[0]);
+    int st = 0; waitpid(pid, &st, 0);
+    bool normal = WIFEXITED(st) && WEXITSTATUS(st) == 0;
+    if (!normal) {
+      R.judge("terminates_and_stays_in_bounds", 1, 0.5, key);
+      R.fail("terminates_and_stays_in_bounds", "terminates_and_stays_in_bounds/" + key, 1, 0, "{" + vf::kv("child", vf::q(WIFSIGNALED(st) ? "killed by signal " + std::to_string(WTERMSIG(st)) : "exit status " + std::to_string(WEXITSTATUS(st)))) + "}");
+      return;
+    }
+    if (out.compare(0, 2, "OK") == 0) { R.judge("result_independent_of_earlier_calls", 0, 0.5, key); R.transitions += atol(out.c_str() + 3); ++R.nontrivial; }
+    else {
+      R.judge("result_independent_of_earlier_calls", 1, 0.5, key);
+      R.fail("result_independent_of_earlier_calls", "result_independent_of_earlier_calls/" + key, 1, 0, "{" + vf::kv("message", vf::q(out)) + "}");
+    }
+  }
+
   void run() {
     const int NMAX = cfg.thorough ? 16 : 10, KMAX = cfg.thorough ? 4 : 2;
+    for (int kind = 0; kind < 2; ++kind) for (int closed = 0; closed < 2; ++closed) if (R.mine()) history(NMAX, KMAX, closed != 0, kind);
     long cnt = 0;
     for (int kind = 0; kind < 2; ++kind)
       for (int closed = 0; closed < 2; ++closed) {
